@@ -22,7 +22,7 @@ type c11Callee struct {
 
 func (c *c11Callee) Parse(lex *lexer.PeekingLexer) error {
 	t := lex.Peek()
-	if t.EOF() || t.Value == ";" || t.Value == "(" || t.Value == ")" {
+	if t.EOF() || t.Value == ";" || t.Value == "(" || t.Value == ")" || t.Value == "!" {
 		return participle.NextMatch
 	}
 	c.Name = lex.Next().Value
@@ -35,10 +35,30 @@ func (c *c11Callee) Parse(lex *lexer.PeekingLexer) error {
 	return nil
 }
 
+// c11Tail reads everything from a "!" to the end of the input, calling Next() until it returns EOF.
+type c11Tail struct {
+	Words []string
+}
+
+func (t *c11Tail) Parse(lex *lexer.PeekingLexer) error {
+	if lex.Peek().Value != "!" {
+		return participle.NextMatch
+	}
+	lex.Next()
+	for {
+		tok := lex.Next()
+		if tok.EOF() {
+			return nil
+		}
+		t.Words = append(t.Words, tok.Value)
+	}
+}
+
+// The position fields of c11Stmt carry struct tags of their own (an empty parser key next to a json key).
 type c11Stmt struct {
-	Pos    lexer.Position
-	EndPos lexer.Position
-	Tokens []lexer.Token
+	Pos    lexer.Position `parser:"" json:"-"`
+	EndPos lexer.Position `parser:"" json:"end,omitempty"`
+	Tokens []lexer.Token  `parser:"" json:"-"`
 
 	Target *c11Callee `@@`
 }
@@ -49,12 +69,13 @@ type c11Prog struct {
 	Tokens []lexer.Token
 
 	Stmts []*c11Stmt `( @@ ";" )*`
+	Tail  *c11Tail   `@@?`
 }
 
 var c11PLex = lexer.MustSimple([]lexer.SimpleRule{
 	{Name: "Comment", Pattern: `#[^\n]*`},
 	{Name: "Ident", Pattern: `[a-zé]+`},
-	{Name: "Punct", Pattern: `[;()]`},
+	{Name: "Punct", Pattern: `[;()!]`},
 	{Name: "Whitespace", Pattern: `\s+`},
 })
 
@@ -92,6 +113,16 @@ func c11Parseable(c *mon.Child) {
 			calls = append(calls, call)
 			sb.WriteString(sp() + ";")
 			from = sb.Len()
+			sb.WriteString(sp())
+		}
+		lastEnd := from // end of the last token the parse consumes (0: nothing consumed)
+		if r.Intn(3) == 0 {
+			sb.WriteString("!")
+			lastEnd = sb.Len()
+			for n := r.Range(0, 3); n > 0; n-- {
+				sb.WriteString(sp() + r.Pick("a", "(", ";", "é"))
+				lastEnd = sb.Len()
+			}
 			sb.WriteString(sp())
 		}
 		in := sb.String()
@@ -144,6 +175,14 @@ func c11Parseable(c *mon.Child) {
 					}
 					at += len(t.Value)
 				}
+			}
+		}
+		if perr == nil && prog != nil && lastEnd > 0 {
+			// the root's run ends at the last token the parse consumed; EndPos is the position right after it
+			if prog.EndPos.Offset != lastEnd {
+				report(fmt.Sprintf("root: EndPos offset %d, the last consumed token ends at %d", prog.EndPos.Offset, lastEnd))
+			} else if n := len(prog.Tokens); n == 0 || prog.Tokens[n-1].Pos.Offset+len(prog.Tokens[n-1].Value) != lastEnd {
+				report(fmt.Sprintf("root: token list does not end with the last consumed token (which ends at byte %d)", lastEnd))
 			}
 		}
 		if len(want) >= 2 {
